@@ -366,7 +366,7 @@ func (c *lctx) call(t *ast.CallExpr, ve venv) (string, string, bool) {
 		m = m || m2
 		switch {
 		case fn.Sel.Name == "Polygons" && rty == "Polygonal" && len(as) == 0:
-			return "(" + lt("Polygonal") + ".polygons " + rs + ")", "[]Polygon", m
+			return "(Polygonal_Polygons " + rs + ")", "[]Polygon", m
 		case fn.Sel.Name == "Equals" && rty == "Point" && len(as) == 1 && ts[0] == "Point":
 			return "(" + xn("Gen", "GenX") + ".Point_Equals " + rs + " " + as[0] + ")", "bool", m
 		case fn.Sel.Name == "Overlaps" && rty == "*Bounds" && len(as) == 1 && ts[0] == "*Bounds":
@@ -893,6 +893,94 @@ var loopFuncs = []lwant{
 	{"polygon.go", "Polygon", "Within", "Polygon_Within"},
 }
 
+// Polygons() of the three types behind the Polygonal interface (polygon.go, multipolygon.go, bounds.go), rendered as one
+// function by cases on the dynamic type. Accepted: a body that is a single `return e` with e the receiver, or a composite
+// literal of []Polygon / Polygon / Path / Point nesting (types may be elided) over the receiver, b.Min, b.Max and their
+// .X/.Y fields.
+func extractPolygons(repo string, fset *token.FileSet) string {
+	type src struct{ file, recv, ctor string }
+	var arms []string
+	for _, w := range []src{{"polygon.go", "Polygon", "polygon"}, {"multipolygon.go", "MultiPolygon", "multiPolygon"}, {"bounds.go", "*Bounds", "bounds"}} {
+		f, err := parser.ParseFile(fset, filepath.Join(repo, w.file), nil, 0)
+		if err != nil {
+			fail("%v", err)
+		}
+		var fd *ast.FuncDecl
+		for _, d := range f.Decls {
+			if x, ok := d.(*ast.FuncDecl); ok && x.Name.Name == "Polygons" && recvType(x) == w.recv {
+				fd = x
+			}
+		}
+		if fd == nil || len(fd.Recv.List[0].Names) != 1 || fd.Type.Params.NumFields() != 0 || fd.Type.Results.NumFields() != 1 ||
+			goType(fd.Type.Results.List[0].Type) != "[]Polygon" {
+			fail("%s: (%s).Polygons() []Polygon not found", w.file, w.recv)
+		}
+		rn := fd.Recv.List[0].Names[0].Name
+		if len(fd.Body.List) != 1 {
+			fail("(%s).Polygons: body outside the subset (one return statement)", w.recv)
+		}
+		ret, ok := fd.Body.List[0].(*ast.ReturnStmt)
+		if !ok || len(ret.Results) != 1 {
+			fail("(%s).Polygons: body outside the subset (one return statement)", w.recv)
+		}
+		// depth: 0 = []Polygon, 1 = Polygon, 2 = Path, 3 = Point, 4 = float64
+		depthOf := map[string]int{"[]Polygon": 0, "MultiPolygon": 0, "Polygon": 1, "[]Path": 1, "Path": 2, "[]Point": 2, "Point": 3}
+		var tr func(e ast.Expr, depth int) string
+		tr = func(e ast.Expr, depth int) string {
+			switch t := e.(type) {
+			case *ast.Ident:
+				if t.Name == rn && w.recv != "*Bounds" && depthOf[w.recv] == depth {
+					return lname(rn)
+				}
+			case *ast.SelectorExpr:
+				if w.recv == "*Bounds" {
+					if x, ok := t.X.(*ast.Ident); ok && x.Name == rn && depth == 3 && (t.Sel.Name == "Min" || t.Sel.Name == "Max") {
+						return lname(rn) + t.Sel.Name
+					}
+					if in, ok := t.X.(*ast.SelectorExpr); ok && depth == 4 && (t.Sel.Name == "X" || t.Sel.Name == "Y") {
+						if x, ok := in.X.(*ast.Ident); ok && x.Name == rn && (in.Sel.Name == "Min" || in.Sel.Name == "Max") {
+							return lname(rn) + in.Sel.Name + "." + strings.ToLower(t.Sel.Name)
+						}
+					}
+				}
+			case *ast.CompositeLit:
+				if t.Type != nil {
+					d, ok := depthOf[goType(t.Type)]
+					if !ok || d != depth {
+						fail("(%s).Polygons: literal of type %s at depth %d", w.recv, goType(t.Type), depth)
+					}
+				}
+				var el []string
+				for _, x := range t.Elts {
+					if _, ok := x.(*ast.KeyValueExpr); ok {
+						fail("(%s).Polygons: keyed literal", w.recv)
+					}
+					el = append(el, tr(x, depth+1))
+				}
+				if depth == 3 {
+					if len(el) != 2 {
+						fail("(%s).Polygons: Point literal", w.recv)
+					}
+					return "⟨" + el[0] + ", " + el[1] + "⟩"
+				}
+				if depth < 3 {
+					return "[" + strings.Join(el, ", ") + "]"
+				}
+			}
+			fail("(%s).Polygons: expression outside the subset at depth %d", w.recv, depth)
+			return ""
+		}
+		body := tr(ret.Results[0], 0)
+		pat := lname(rn)
+		if w.recv == "*Bounds" {
+			pat = lname(rn) + "Min " + lname(rn) + "Max"
+		}
+		arms = append(arms, "  | "+lt("Polygonal")+"."+w.ctor+" "+pat+" => "+body)
+	}
+	return "/-- polygon.go, multipolygon.go, bounds.go: Polygons() of the three types behind the Polygonal interface -/\ndef Polygonal_Polygons (pg : " +
+		lt("Polygonal") + ") : " + lt("[]Polygon") + " :=\n  match pg with\n" + strings.Join(arms, "\n") + "\n\n"
+}
+
 func recvType(fd *ast.FuncDecl) string {
 	if fd.Recv == nil || len(fd.Recv.List) != 1 {
 		return ""
@@ -907,6 +995,7 @@ func extractLoops(repo string) string {
 	var b strings.Builder
 	ns := xn("GenL", "GenXL")
 	b.WriteString("/-! the loops: within.go pointInPolygon(al), area.go ringBounds, bounds.go NewBounds(Point)/extendPoint(s), the Within receivers;\n`os`/`ray` stand for the callees pointOnSegment / rayIntersectsSegment -/\nnamespace GeomV.C02." + ns + "\nopen GeomV GeomV.C02\n\n")
+	b.WriteString(extractPolygons(repo, fset))
 	for _, w := range loopFuncs {
 		if xmode && strings.HasSuffix(w.lean, "_Within") { // reflect.DeepEqual compares floats with ==: receivers stay outside the XF rendering
 			continue
